@@ -24,6 +24,9 @@ def run(chk, tier):
         position_is_rmw(chk, F, 'R04.3', cfg)
         E.slot_lookup(chk, F, 'R04.4', cfg)
         B.ordered_implicit_once(chk, F, 'R04.6', cfg)
+        # R04.9 'each repeated by its exact count': every quantifier adds its count to what the chain has accumulated (the width of the slot range)
+        B.quantify_arith(chk, F, 'R04.9', cfg)
+        B.api_table(chk, F, 'R04.9.api', cfg)
         from props import ctor
         ctor.builder_constructors(chk, F, 'R04.0', cfg)
         efn, epaths, erows = E.eval_dyn_table(chk, F, 'R04.7.table', cfg)
